@@ -16,7 +16,7 @@ func init() {
 			"the k-th file-system call fails with ENOSPC/EIO/EACCES (single fault), or the process is killed after the k-th call; permission bits are a symbolic 9-bit value with the owner-read bit set",
 			"'complete formatted text' = the output of main.format on the same bytes (formatter correctness is C06/C07)",
 		},
-		Outside:   []string{"power loss / missing fsync (the property is about process kill)", "kernel semantics beyond atomic rename", "native confirmation of fault/kill counterexamples needs syscall injection and is not automated: such counterexamples are reported as UNCONFIRMED (exit 2), only fault-free counterexamples are replayed natively"},
+		Outside:   []string{"power loss / missing fsync (the property is about process kill)", "kernel semantics beyond atomic rename", "native confirmation of fault/kill counterexamples: the replay runs the real evy binary under strace, injecting the failure or SIGKILL at every invocation (1..60) of every file-related system call, and checks the invariant after each run; a model fault with no native counterpart among those is reported as not reproduced (exit 2)"},
 		LevelText: "fault enumeration by bounded symbolic execution of fmtCmd.Run/fmtEvyFile/fmtTxtarFile/format/writeAtomically on a model file system: every kill point and every single failing call among the first K file-system calls, all permission bits (solver-decided), five content classes, .evy and .txtar",
 		LevelNote: "trusts the model file system (stubs listed in the evidence), the engine and cvc5",
 		DesignRef: "DESIGN.md §6 C18",
